@@ -48,6 +48,26 @@ static std::vector<Op> setup_ops(const Alphabet& A, int root = 0) {
 	return s;
 }
 
+struct Body { const char* name; std::vector<Op> prefix, cycle; bool cheap; };
+static std::vector<Body> long_bodies() {
+	std::vector<Body> bodies = {
+			{ "alloc_cache(c1) release_cache(c1)", {}, { { ALLOC_CACHE, 1, 0 }, { RELEASE_CACHE, 1, 0 } }, true },
+			{ "destroy_vm create_vm(c0)", {}, { { DESTROY_VM, 0, 0 }, { CREATE_VM, 0, 0 } }, true },
+			{ "vm_set_cache(c1) vm_set_cache(c0)", { { ALLOC_CACHE, 1, 0 }, { INIT_CACHE, 1, 0 } }, { { SET_CACHE, 1, 0 }, { SET_CACHE, 0, 0 } }, true },
+			{ "set_v2 clear_v2", {}, { { SET_V2, 0, 0 }, { CLEAR_V2, 0, 0 } }, true },
+			{ "init_cache(c0,K0) init_cache(c0,K1)", {}, { { INIT_CACHE, 0, 0 }, { INIT_CACHE, 0, 1 } }, false },
+			{ "hash(X0)", {}, { { HASH, 0, 0 } }, false },
+	};
+	return bodies;
+}
+static std::vector<Op> long_suffix() {
+	// bind a cache that holds ANOTHER key than the one the VM last used, hash; then re-key the first cache to yet the other key, re-bind, hash
+	const uint8_t other = (uint8_t)(W.cache_key[0] == 1 ? 0 : 1), back = (uint8_t)(other ? 0 : 1);
+	std::vector<Op> suffix; if (!W.cache[1]) suffix.push_back({ ALLOC_CACHE, 1, 0 }); suffix.push_back({ INIT_CACHE, 1, other }); if (!W.vm) suffix.push_back({ CREATE_VM, 1, 0 }); else suffix.push_back({ SET_CACHE, 1, 0 });
+	suffix.push_back({ HASH, 0, 0 }); suffix.push_back({ INIT_CACHE, 0, other }); suffix.push_back({ INIT_CACHE, 0, back }); suffix.push_back({ SET_CACHE, 0, 0 }); suffix.push_back({ HASH, 1, 0 });
+	return suffix;
+}
+
 int main(int argc, char** argv) {
 	vf::Args args = vf::parse_args(argc, argv, "C03");
 	const bool th = args.thorough();
@@ -57,7 +77,15 @@ int main(int argc, char** argv) {
 	const int nenv = th ? 8 : 3;
 #endif
 	if (!args.replay.empty()) {   // run one history from scratch in this process
-		vf::Json r = vf::Json::load(args.replay); Alphabet A = make_alphabet((int)r.at("vm_flags").num(), r.at("thorough").b, r.has("keyset") ? (int)r.at("keyset").num() : 0); set_env((int)r.at("env").num());
+		vf::Json r = vf::Json::load(args.replay);
+		if (r.has("kind") && r.at("kind").s == "long") {
+			Alphabet A = make_alphabet((int)r.at("vm_flags").num(), false); A.with_batch = false; set_env(0); W.A = &A; compute_expected(W);
+			const Body B = long_bodies()[(size_t)r.at("body").num()]; long count = (long)r.at("count").num(); std::string why;
+			auto run = [&](const std::vector<Op>& ops) { for (auto& o : ops) { if (!W.enabled(o)) { why = "operation " + op_str(o) + " not enabled"; return false; } if (!W.apply(o)) { why = op_str(o) + ": " + W.problem; return false; } } return true; };
+			bool ok = run(setup_ops(A, 0)) && run(B.prefix); for (long c = 0; ok && c < count; ++c) ok = run(B.cycle); if (ok) ok = run(long_suffix());
+			printf("replay: %ld repetitions of [%s] then the observation suffix: %s\n", count, B.name, ok ? "every digest equals the fresh-object digest" : why.c_str()); return ok ? 0 : 1;
+		}
+		Alphabet A = make_alphabet((int)r.at("vm_flags").num(), r.at("thorough").b, r.has("keyset") ? (int)r.at("keyset").num() : 0); set_env((int)r.at("env").num());
 		W.A = &A; compute_expected(W);
 		for (auto& o : hist_from(r.at("history_raw"))) {
 			if (!W.enabled(o)) { printf("replay: operation %s not enabled (harness error)\n", op_str(o).c_str()); return 2; }
@@ -124,6 +152,44 @@ int main(int argc, char** argv) {
 		if (shard == 0) { std::vector<Op> s = setup_ops(A); s.push_back({ HASH, 1, 0 }); s.push_back({ INIT_CACHE, 0, 0 }); s.push_back({ SET_CACHE, 0, 0 }); s.push_back({ HASH, 1, 0 }); R.sample(vf::Json::obj().set("cfg", cfg).set("env", ENVS[j.env].name).set("history", hist_json(s)), 1); }
 		return R;
 	}, true, 7200);
+#ifndef RX_NO_ENVALLOC
+	// ---- counter-wrap probes: LONG cyclic histories. The depth-bounded search cannot reach a defect that needs a count (an 8- or 16-bit serial / generation /
+	// epoch wrapping, a small table filling up - seeded change agent8_C03: 16-bit cache serial, collides after 65536 allocations). A cycle body is repeated and at
+	// the repetition counts around 2^8 and 2^16 a forked clone runs an observation suffix (bind a freshly keyed cache, hash; re-key and re-bind the first cache, hash)
+	// whose digests must be the fresh-object digests.
+	{
+		std::vector<Body> bodies = long_bodies();
+		std::vector<int> lf = { (int)RANDOMX_FLAG_DEFAULT, (int)RANDOMX_FLAG_JIT };
+		struct LJ { int flags; size_t body; }; std::vector<LJ> lj; for (int f : lf) for (size_t b = 0; b < bodies.size(); ++b) lj.push_back({ f, b });
+		vf::Result rl = vf::run_shards(args, (int)lj.size(), [&](int shard) {
+			vf::Result R; const LJ& J = lj[(size_t)shard]; const Body& B = bodies[J.body];
+			Alphabet A = make_alphabet(J.flags, false); A.with_batch = false; set_env(0); W.A = &A; compute_expected(W);
+			auto run = [&](const std::vector<Op>& ops, std::string& why) { for (auto& o : ops) { if (!W.enabled(o)) { why = "operation " + op_str(o) + " not enabled (harness)"; return false; } if (!W.apply(o)) { why = op_str(o) + ": " + W.problem; return false; } } return true; };
+			std::string why; std::vector<Op> setup = setup_ops(A, 0);
+			if (!run(setup, why) || !run(B.prefix, why)) { vf::Violation v; v.key = "c03:long-setup"; v.what = why; v.replay = vf::Json::obj(); R.viol.push_back(v); return R; }
+			const long maxc = (B.cheap || th) ? 65537 : 257;
+			for (long c = 1; c <= maxc && R.viol.empty(); ++c) {
+				if (!run(B.cycle, why)) { vf::Violation v; v.key = "c03:long"; v.what = std::string("cycle [") + B.name + "] repetition " + std::to_string(c) + ": " + why; v.replay = vf::Json::obj().set("kind", "long").set("vm_flags", J.flags).set("body", (int)J.body).set("count", (long long)c); R.viol.push_back(v); break; }
+				R.n["long_history_operations"] += B.cycle.size();
+				bool probe = (c >= 254 && c <= 258) || (c >= 65534) || c == 1 || c == 2 || c == 127 || c == 128 || c == 129 || c == 32767 || c == 32768 || c == 32769;
+				if (!probe) continue;
+				int pfd[2]; if (pipe(pfd)) continue; fflush(stdout); pid_t pid = fork();
+				if (pid == 0) {
+					std::vector<Op> suffix = long_suffix();
+					std::string w2; if (!run(suffix, w2)) { if (write(pfd[1], w2.data(), w2.size())) {} } _exit(0);
+				}
+				close(pfd[1]); std::string d; char buf[512]; ssize_t q; while ((q = read(pfd[0], buf, sizeof buf)) > 0) d.append(buf, (size_t)q); close(pfd[0]); int st; waitpid(pid, &st, 0);
+				if (!(WIFEXITED(st) && WEXITSTATUS(st) == 0)) d = "abnormal termination of the observation suffix";
+				R.n["long_history_probes"]++;
+				if (!d.empty()) { vf::Violation v; v.key = "c03:long"; v.what = std::string("after ") + std::to_string(c) + " repetitions of [" + B.name + "], then init_cache(c1,K1) bind hash(X0) init_cache(c0,K0) vm_set_cache(c0) hash(X1): " + d;
+					v.replay = vf::Json::obj().set("kind", "long").set("vm_flags", J.flags).set("body", (int)J.body).set("count", (long long)c); R.viol.push_back(v); }
+			}
+			R.tags.insert(std::string("long cycle [") + B.name + "] x " + std::to_string(maxc) + (J.flags ? " (jit-soft-light)" : " (int-soft-light)"));
+			return R;
+		}, true, 7200);
+		total.merge(rl);
+	}
+#endif
 	// shortest counterexamples first
 	std::sort(total.viol.begin(), total.viol.end(), [](const vf::Violation& a, const vf::Violation& b) { return a.replay.has("history_raw") && b.replay.has("history_raw") ? a.replay.at("history_raw").a.size() < b.replay.at("history_raw").a.size() : false; });
 	vf::Evidence ev; ev.level = "model_checking";
@@ -131,7 +197,7 @@ int main(int argc, char** argv) {
 		.set("traces_validated_against_impl", (unsigned long long)(total.n["transitions"] + total.n["transitions_unmerged_runs"]))
 		.set("evaluations", (unsigned long long)total.n["hashes_checked"]).set("distinct_nontrivial", (unsigned long long)total.n["states"])
 		.set("depth_bound", depth).set("exhaustive", !total.incomplete)
-		.set("rule", std::string("profile ") + RX_PROFILE + ": for each explored VM flag set and each environment answer (address-reuse policy x fill pattern of fresh memory): all histories of documented-contract operations (alloc/init/release cache x2, alloc/init/release dataset, create/destroy VM, vm_set_cache, vm_set_dataset, v1<->v2, hash, first/next/last) up to the depth bound after a fixed setup, executed on the real objects (states cloned by fork, deduplicated on a canonical concrete digest, depth-aware); every digest returned anywhere must equal the fresh-object digest; a second search without merging (depth 3) must agree. states/transitions are summed over explorations; every transition is an execution of the implementation");
+		.set("rule", std::string("profile ") + RX_PROFILE + ": for each explored VM flag set and each environment answer (address-reuse policy x fill pattern of fresh memory): all histories of documented-contract operations (alloc/init/release cache x2, alloc/init/release dataset, create/destroy VM, vm_set_cache, vm_set_dataset, v1<->v2, hash, first/next/last) up to the depth bound after a fixed setup, executed on the real objects (states cloned by fork, deduplicated on a canonical concrete digest, depth-aware); every digest returned anywhere must equal the fresh-object digest; a second search without merging (depth 3) must agree; counter-wrap probes: six cycle bodies repeated up to 65537 times (re-keying and hashing cycles: 257 in quick) with an observation suffix at the counts around 2^7, 2^8, 2^15, 2^16. states/transitions are summed over explorations; every transition is an execution of the implementation");
 	ev.assumptions = { "quick: four flag sets at the full depth, the other eight and two LARGE_PAGES classes one level less; two caches, one VM per flag set at a time, key/input alphabets of 2 (quick: {empty, text} and, in the fresh-memory jobs, two equal-length binary keys that differ after an embedded 0x00) or 6/3 (thorough) elements; histories longer than the bound are covered only through state merging",
 		"contract guards of DESIGN.md appendix B decide which operations are enabled" };
 	return vf::finish(args, total, ev, true, true);
